@@ -650,6 +650,13 @@ def run(ctx):
     from .c07 import rule_no_held_iterator
     rule_no_held_iterator(ctx, "R6.13")
     scope.rule_memo_scope_free(ctx, "R6.14")
+    # R6.15: an error is stamped with the keyword / element of the round of the loop that produced it (no lazy reader of loop variables put aside)
+    scope.rule_no_deferred_loop_closure(ctx, "R6.15")
+    # R6.16: the schema path of an error hops through `$ref` to what the reference designates: whatever the reference string is (the empty
+    # one too), its siblings stay inert, so no error is recorded under a keyword the path does not reach (C06-r6m1)
+    from .c02 import rule_short_circuit, rule_ref_opaque
+    rule_short_circuit(ctx, "R6.16")
+    rule_ref_opaque(ctx, "R6.16b")
 
 
 def rule_errors_untouched(ctx, rid="R6.12"):
